@@ -36,3 +36,6 @@ Inductive response :=
 | RespGrpc (code : N) (retry_info : option Z) (partial : bool).     (* RetryInfo.retry_delay in nanoseconds, when attached *)
 
 Definition NS_PER_S : Z := 1000000000.
+
+(** The partial_success field of an OK / 2xx response. *)
+Inductive partial_info := NoPartial | Partial (rejected : N) (has_message : bool).
